@@ -228,6 +228,22 @@ def _fast_worker(job):
                 rets2 = [dec.decode_basic_string(basic, True)]
             again_ok = len(calls) == 2 and rets2[-1] == "MSG" and all(x is None for x in rets2[:-1])
             out.append((rets, calls[:1], again_ok, calls[1:]))
+        # one decoder instance fed through a whole-message format first and a frame-level format afterwards, and the other way
+        # round: the format of earlier input must not decide how later input of the same PGN is treated
+        mixed_ok = True
+        for first in ("actisense", "frames"):
+            dec = R.decoder.NMEA2000Decoder()
+            calls = []
+            dec._call_decode_function = lambda pgn_, pr_, s_, d_, ts_, dat, iso, raw: calls.append((pgn_, pr_, s_, d_, dat)) or "MSG"
+            if first == "actisense":
+                r1 = [dec.decode_actisense_string(act)]
+                r2 = [dec.decode_tcp(p_) for p_ in pk]
+            else:
+                r1 = [dec.decode_tcp(p_) for p_ in pk]
+                r2 = [dec.decode_basic_string(basic, True)]
+            ok_ = len(calls) == 2 and r1[-1] == "MSG" and r2[-1] == "MSG" and all(x is None for x in r1[:-1] + r2[:-1]) and len(calls[0][4]) == n and len(calls[1][4]) == n
+            mixed_ok = mixed_ok and ok_
+        out.append(("MIXED", mixed_ok))
         return out
     try:
         paths, ex = explore(h, max_paths=64, assumptions=assumptions)
@@ -246,6 +262,11 @@ def _fast_worker(job):
             rep.violation({"kind": "fast-raises"}, "raised %r" % (pa.value,), wit(m0))
             continue
         out = pa.value
+        mixed = out[-1]
+        out = out[:-1]
+        if not mixed[1]:
+            rep.violation({"kind": "fast-mixed-formats"}, "one decoder fed the same fast-packet PGN pre-assembled and frame by frame (either order) does not deliver both messages", wit(m0))
+            continue
         ok = all(len(c) == 1 and r[-1] == "MSG" and all(x is None for x in r[:-1]) and len(c[0][4]) == n for r, c, ag, c2 in out)
         if not ok:
             rep.violation({"kind": "fast-delivery"}, "frame-wise / pre-assembled delivery shape differs: %r" % ([(len(c), [x is not None for x in r]) for r, c, ag, c2 in out],), wit(m0))
@@ -456,5 +477,31 @@ def replay(r):
             except Exception as e:
                 return True, "%s raised %r" % (mode, e)
             res.append(calls)
+        # one decoder, both kinds of format, either order
+        def frames_into(dec_):
+            pos = idx = 0
+            while True:
+                body = pay[pos:pos + (6 if idx == 0 else 7)]
+                pos += len(body)
+                fr = bytes([(seq << 5) | idx]) + (bytes([n]) if idx == 0 else b"") + body
+                dec_.decode_tcp(bytes([0x80 | len(fr)]) + fid.to_bytes(4, "big") + fr + bytes(8 - len(fr)))
+                idx += 1
+                if pos >= n:
+                    break
+        for first in ("actisense", "frames"):
+            dec = N.decoder.NMEA2000Decoder()
+            calls = []
+            dec._call_decode_function = lambda pgn_, pr_, s_, d_, ts_, dat, iso, raw: calls.append((pgn_, pr_, s_, d_, bytes(dat))) or "MSG"
+            try:
+                if first == "actisense":
+                    dec.decode_actisense_string("A000000.000 %05X %05X %s" % ((src << 12) | (d_eff << 4) | prio, pgn, pay.hex().upper()))
+                    frames_into(dec)
+                else:
+                    frames_into(dec)
+                    dec.decode_basic_string("2020-01-01-00:00:00.000,%d,%d,%d,%d,%d,%s" % (prio, pgn, src, d_eff, n, ",".join("%02x" % b for b in pay)), True)
+            except Exception as e:
+                return True, "one decoder, %s first: raised %r" % (first, e)
+            if len(calls) != 2 or calls[0][4] != calls[1][4]:
+                return True, "one decoder, %s first: %d deliveries %r" % (first, len(calls), [c[4].hex() for c in calls])
         return not (res[0] == res[1] == res[2] and len(res[0]) == 2 and res[0][0][4][::-1] == pay), "deliveries %r" % (res,)
     return None, "unknown"
